@@ -186,6 +186,12 @@ ESnap ==
   /\ Is("snap") /\ KeepM /\ Same
   /\ Ev.sn = SnapOf(cfg, S)
 
+(* result() / raised_exception() of every node once the run is over          *)
+ResOf(C, X) == [i \in 1..(C.n - 1) |-> <<RTagOf(X, i + 1), ETagOf(X, i + 1)>>]
+ERes ==
+  /\ Is("res") /\ KeepM /\ Same
+  /\ Terminated(cfg, S) /\ Ev.sn = ResOf(cfg, S)
+
 (* every co_shutdown() the specification says was sent has been seen       *)
 AllShutSeen ==
   /\ \A j \in Jobs(cfg) : S.sh[j] # "none" => Marked("shut", j)
@@ -214,7 +220,7 @@ Logged ==
   /\ l' = l + 1
   /\ \/ ERunBegin \/ EStart \/ EEnd \/ ERaise \/ ECancel \/ ERecancel \/ ECancelDone
      \/ ESshut \/ ESshutRet \/ ESshutCancel \/ ERunEnd \/ ERunExc \/ EDiag
-     \/ EShut \/ EShutDone \/ EShutCancel \/ ETick \/ ESnap \/ ETop \/ ETopHang \/ ELeftover \/ EStall \/ EShutCancelDone \/ EUserCancel
+     \/ EShut \/ EShutDone \/ EShutCancel \/ ETick \/ ESnap \/ ETop \/ ETopHang \/ ERes \/ ELeftover \/ EStall \/ EShutCancelDone \/ EUserCancel
 
 Silent ==
   /\ l' = l /\ KeepM /\ Has
@@ -320,6 +326,14 @@ Why(C, X, e) ==
        [] e.k = "shut-cancel" -> (IF X.sh[n] \in {"cing", "cancelled"} /\ X.tsc[n] # X.now THEN "shut-cancel-late" ELSE "shut-cancel-unexpected")
        [] e.k = "shut-cancel-done" -> "shut-cancel-done-early"
        [] e.k = "snap" -> "predicates"
+       [] e.k = "res" ->
+            (IF ~Terminated(C, X) THEN "results-early"
+             ELSE LET bad == {i \in 1..(C.n - 1) : e.sn[i] # ResOf(C, X)[i]}
+                      i == CHOOSE x \in bad : \A y \in bad : x <= y
+                  IN IF bad = {} THEN "results-other"
+                     ELSE IF IsSched(C, i + 1) THEN "results-nested-scheduler"
+                     ELSE IF X.st[i + 1] = "exc" THEN "results-exception"
+                     ELSE "results-job")
        [] e.k = "stall" -> "stall-other"
        [] e.k = "ucancel" -> "user-cancel-other"
        [] e.k = "alien" -> "alien-job-" \o e.v
